@@ -421,9 +421,11 @@ def _emit_trailing_comment(comment: str | None, strip_comments: bool = False) ->
     Returns:
         " // comment" suffix or empty string
     """
-    if strip_comments or not comment:
+    if strip_comments or comment is None:
         return ""
-    return f" // {comment}"
+    # An empty end-of-line comment ("KEY::v //") is content too: keep it as " //" (no trailing
+    # whitespace), as emit_comment does for empty comment lines
+    return f" // {comment}".rstrip()
 
 
 def emit_comment(comment: Comment, indent: int = 0, format_options: FormatOptions | None = None) -> str:
